@@ -334,13 +334,19 @@ def program_case(rng, tier, idx):
         feats.add("fam-" + fam2)
     consts = []
     if shape == "const" or r.random() < 0.2:
-        style = wchoice(r, [("int", 3), ("float", 2), ("ref", 3)])
+        style = wchoice(r, [("int", 3), ("float", 2), ("ref", 3), ("choice", 2)])
         f = r.choice(["Sin", "Cos", "Exp"])
         nm = {"Sin": "sk", "Cos": "ck", "Exp": "gk"}[f]
         if style == "int":
             body.append(f"{nm} = {f}({r.choice([0, 1, 2, 3])})")
         elif style == "float":
             body.append(f"{nm} = {f}({r.choice(['0.5', '0.25', '1.5', '0.1'])})")
+        elif style == "choice":
+            # the argument holds a probabilistic choice between numbers: not a constant (Polar refuses such arguments;
+            # if it answers, the answer must be the mixture)
+            a1, a2 = r.sample([F(1), F(2), F(1, 2), F(0), F(3)], 2)
+            body.append(f"k = {fs(a1)} {{{fs(r.choice([F(1, 2), F(1, 3), F(3, 4)]))}}} {fs(a2)}")
+            body.append(f"{nm} = {f}(k)")
         else:
             body.append(f"k = {fs(r.choice([F(1, 2), F(3, 2), F(2), F(-1, 3), F(1)]))}")
             if r.random() < 0.5:
